@@ -62,7 +62,11 @@ RULE = ("seeded random scope pairs: per name the runtime side is absent/attribut
         "as six files m/user/via .py/.pyi (user re-exports m's names, via re-exports user's, each with its own stubs) in a seeded listing order and "
         "the same order with the two files of one pair swapped, against the sequential model; seeded pairs with CPython-evaluable annotations as "
         "private _pkg + facade (`from _pkg import *`) + stubs in four placements (package __init__.pyi, pkg-stubs, nested subpackage __init__ at two "
-        "depths in both orders), judged against CPython importing the facade in a subprocess and ast on the .pyi; plus a hand-written corpus of edge "
+        "depths in both orders), judged against CPython importing the facade in a subprocess and ast on the .pyi; a single-file module modx.py + "
+        "modx-stubs package with a stub-only submodule in the same search-path directory or in another one (every pair); a sourceless fast.pyc "
+        "(INSPECTED runtime module, allow_inspection on) next to fast.pyi in both listing orders, judged against the inspection of the same "
+        "bytecode alone; every fourth pair with ONE loader reused for loads with find_stubs_package on/off/on and off/on/off (pkg-stubs, with and "
+        "without in-package stubs) against fresh-loader trees and the property's reading of the selected stubs; plus a hand-written corpus of edge "
         "pairs. After every load: one tree (parent/path/collection), aliases bound to objects of the tree and registered in their `aliases` dicts. "
         "non-trivial = at least one name present on both sides; distinct by (py source, pyi source)")
 TRUSTED = ["abstraction: harness reads kind, docstring.value, [(p.name, str(p.annotation))], str(returns), overloads, str(annotation), runtime, "
@@ -502,11 +506,11 @@ def run_direct(d: Path, py: str, pyi: str, stubs_first: bool):
     return ["ok", [r.filepath.suffix == ".pyi", norm_result(abstract(r))]], unresolved_ok(r)
 
 
-def run_load(search: Path, name: str, member, reverse=False, **kw):
+def run_load(search: Path, name: str, member, reverse=False, extra_paths=(), **kw):
     import griffe
     try:
         with walk_order(reverse):
-            top = griffe.load(name, search_paths=[str(search)], allow_inspection=False, **kw)
+            top = griffe.load(name, search_paths=[str(search), *extra_paths], allow_inspection=False, **kw)
         obj = top if member is None else top.members[member]
     except Exception as e:  # noqa: BLE001
         return _err(e), [], None
@@ -830,6 +834,17 @@ def _run_case(ctx, d, case, py, pyi, stream, use_model, idx):
         write(d / "C" / "pkgc" / "ronly.py", "def r(): ...\n")
     impl["stubs-package"], unresolved["stubs-package"], topc = run_load(d / "C", "pkgc", None, find_stubs_package=True)
     structure["stubs-package"] = tree_consistency(topc, "pkgc", None, topc.modules_collection) + backref_problems(topc.modules_collection) if topc is not None else []
+    # a SINGLE-FILE runtime module + a <name>-stubs package with a stub-only submodule, installed in the same search-path
+    # directory (the site-packages layout) or in another one
+    same_dir = idx % 2 == 0
+    sdir = d / "S" / ("site" if same_dir else "typings")
+    write(d / "S" / "site" / "modx.py", py)
+    write(sdir / "modx-stubs" / "__init__.pyi", pyi)
+    write(sdir / "modx-stubs" / "extra.pyi", "def s() -> int: ...\n")
+    ctx.observe("single_file_module_stubs_package", "same directory" if same_dir else "another directory")
+    impl["single-file + stubs package"], unresolved["single-file + stubs package"], tops = run_load(
+        d / "S" / "site", "modx", None, find_stubs_package=True, **({} if same_dir else {"extra_paths": [str(sdir)]}))
+    structure["single-file + stubs package"] = tree_consistency(tops, "modx", None, tops.modules_collection) if tops is not None else []
     for k, probs in structure.items():
         if probs:
             ctx.property_failure({**case, "placement": k}, {"merged_tree_is_not_one_tree_or_alias_backrefs_broken": probs[:8]})
@@ -876,6 +891,15 @@ def _run_case(ctx, d, case, py, pyi, stream, use_model, idx):
                 placements_m["stubs-package nested"] = erase(mm["sub"])
                 judge_tree("stubs-package nested", mm["sub"])
             tree = mm["m"]
+        if k == "single-file + stubs package":
+            mm = dict((n, t) for n, t in tree[MEM])
+            ex = mm.get("extra")
+            if ex is None or ex[0] != "obj" or ex[KIND] != "module" or ex[RT] or [n for n, _ in ex[MEM]] != ["s"]:
+                ctx.property_failure({**case, "placement": k, "stubs package in": "the same directory" if same_dir else "another directory"},
+                                     {"stub_only_submodule_of_the_stubs_package": "missing" if ex is None else "not a stub-only module with its member",
+                                      "expected": "modx.extra (runtime=False) with s"})
+            tree = list(tree)
+            tree[MEM] = [[n, t] for n, t in tree[MEM] if n != "extra"]
         placements_m[k] = erase(tree)
         if is_pyi:
             ctx.property_failure({**case, "placement": k}, {"result_is": "the stubs module (.pyi filepath)", "expected": "the runtime module"})
@@ -918,6 +942,7 @@ def _run_case(ctx, d, case, py, pyi, stream, use_model, idx):
         "toplevel": ["load_package", t_py, t_pyi, []],
         "stubs-package": ["load_package", top_c, stub_init_c, sorted(subs_c)],   # os.walk order within pkgc-stubs: m.pyi, sonly.pyi, sub/
         "merge": ["merge", t_pyi, t_py],
+        "single-file + stubs package": ["load_package", t_py, t_pyi, [["extra", abstract(visit_file(sdir / "modx-stubs" / "extra.pyi", "extra"))]]],
     }
     for k in NESTED_KEYS:
         if k in impl:
@@ -1187,6 +1212,124 @@ def run_inherited_case(ctx, idx, py):
 
 
 # ----------------------------------------------------------------------------------------------------------------------
+# runtime modules that are INSPECTED, not visited: a sourceless pkg/fast.pyc next to pkg/fast.pyi (allow_inspection on), both
+# listing orders.  The runtime side of the pair is what inspection alone makes of the module (same bytecode in a package
+# without the .pyi); the merged module must be the property's reading of (that tree, the visited stubs) and the model's.
+# ----------------------------------------------------------------------------------------------------------------------
+def run_compiled_case(ctx, idx, py, pyi, use_model=True):
+    import py_compile
+    import sys
+    import griffe
+    d = ctx.scratch / f"cmp{idx}"
+    ref, pk = f"c19ref{idx}", f"c19cmp{idx}"
+    try:
+        write(d / "src" / "fast.py", py)
+        write(d / "R" / ref / "__init__.py", "")
+        write(d / "B" / pk / "__init__.py", "")
+        write(d / "B" / pk / "fast.pyi", pyi)
+        try:
+            py_compile.compile(str(d / "src" / "fast.py"), cfile=str(d / "R" / ref / "fast.pyc"), doraise=True)
+            shutil.copy(d / "R" / ref / "fast.pyc", d / "B" / pk / "fast.pyc")
+            t_insp = abstract(griffe.load(ref, search_paths=[str(d / "R")], allow_inspection=True).members["fast"])
+        except Exception as e:  # noqa: BLE001   (the generated module cannot be imported on its own: not a case)
+            ctx.observe("compiled_runtime_module", "not importable: " + type(e).__name__)
+            return
+        t_pyi = abstract(visit_file(d / "B" / pk / "fast.pyi", "fast"))
+        case = {"fast.pyc (compiled from)": py, "fast.pyi": pyi, "stream": "inspected-runtime-module"}
+        ctx.case(case, bool({n for n, _ in t_insp[MEM]} & {n for n, _ in t_pyi[MEM]}))
+        ctx.observe("stream", "inspected-runtime-module")
+        ctx.observe("compiled_runtime_module", "inspected")
+        expected = erase(spec_scope(t_pyi, t_insp))
+        model_r = ctx.model([["set_member", [False, t_insp], [True, t_pyi]], ["set_member", [True, t_pyi], [False, t_insp]]]) if use_model else None
+        got = {}
+        for k, rev in enumerate((False, True)):
+            label = "pyi first" if rev else "pyc first"
+            try:
+                with walk_order(rev):
+                    pkg = griffe.load(pk, search_paths=[str(d / "B")], allow_inspection=True)
+                m = pkg.members["fast"]
+                live = ["ok", [m.filepath.suffix == ".pyi", norm_result(abstract(m))]]
+            except Exception as e:  # noqa: BLE001
+                ctx.property_failure({**case, "order": label}, {"raised": type(e).__name__, "expected": "no exception"})
+                continue
+            finally:
+                for name in [n for n in sys.modules if n == pk or n.startswith(pk + ".")]:
+                    del sys.modules[name]
+            got[label] = live
+            if live[1][0]:
+                ctx.property_failure({**case, "order": label}, {"result_is": "the stubs module (.pyi filepath)", "expected": "the inspected runtime module"})
+                continue
+            lost = lost_members(t_insp, live[1][1])
+            if lost:
+                ctx.property_failure({**case, "order": label}, {"lost_runtime_members": lost})
+            diffs = tree_diff(erase(live[1][1]), expected)
+            if diffs:
+                ctx.property_failure({**case, "order": label}, {"differences_from_property": [list(map(str, x)) for x in diffs[:10]]})
+            if model_r is not None and norm_model(model_r[k]) != live:
+                ctx.tie_failure("correspondence", f"model vs griffe [inspected-runtime-module, {label}]",
+                                {"model": str(norm_model(model_r[k]))[:600], "impl": str(live)[:600]}, case)
+        if len(got) == 2 and got["pyc first"] != got["pyi first"]:
+            ctx.property_failure(case, {"order_dependent": [list(map(str, x)) for x in tree_diff(got["pyc first"][1][1], got["pyi first"][1][1])[:10]],
+                                        "pyc first: result is .pyi": got["pyc first"][1][0], "pyi first: result is .pyi": got["pyi first"][1][0]})
+    finally:
+        for name in [n for n in sys.modules if n.split(".")[0] in (ref, pk)]:
+            del sys.modules[name]
+        shutil.rmtree(d, ignore_errors=True)
+
+
+# ----------------------------------------------------------------------------------------------------------------------
+# history: ONE loader reused for several loads of the same package with find_stubs_package on, off, on (and off, on, off),
+# with a separate pkg-stubs package and with / without stubs shipped in the package: every load must give the tree a FRESH
+# loader gives for that setting, which must be the property's reading of the stubs that the setting selects (pkg-stubs when
+# on - it takes precedence over in-package stubs -, the in-package __init__.pyi or none when off).
+# ----------------------------------------------------------------------------------------------------------------------
+def run_reuse_case(ctx, idx, py, pyi):
+    import griffe
+    d = ctx.scratch / f"reuse{idx}"
+    inner = idx % 2 == 1
+    inner_pyi = _restub(pyi, "U", {"int": "complex", "str": "bytearray"})
+    try:
+        write(d / "site" / "pkgr" / "__init__.py", py)
+        if inner:
+            write(d / "site" / "pkgr" / "__init__.pyi", inner_pyi)
+        write(d / "typings" / "pkgr-stubs" / "__init__.pyi", pyi)
+        write(d / "in" / "m.py", py)
+        write(d / "in" / "outer.pyi", pyi)
+        write(d / "in" / "inner.pyi", inner_pyi)
+        t_py, t_outer, t_inner = (abstract(visit_file(d / "in" / f)) for f in ("m.py", "outer.pyi", "inner.pyi"))
+        paths = [str(d / "site"), str(d / "typings")]
+        case = {"pkgr/__init__.py": py, "pkgr-stubs/__init__.pyi": pyi, **({"pkgr/__init__.pyi": inner_pyi} if inner else {}), "stream": "loader-reused"}
+        ctx.case(case, True)
+        ctx.observe("stream", "loader-reused")
+        ctx.observe("loader_reused: stubs shipped in the package", int(inner))
+        expected = {True: erase(spec_scope(t_outer, t_py)), False: erase(spec_scope(t_inner, t_py)) if inner else erase(t_py)}
+
+        def load(loader, flag):
+            return norm_result(abstract(loader.load("pkgr", try_relative_path=False, find_stubs_package=flag)))
+        try:
+            fresh = {flag: load(griffe.GriffeLoader(search_paths=paths, allow_inspection=False), flag) for flag in (True, False)}
+            for flag, tree in fresh.items():
+                diffs = tree_diff(erase(tree), expected[flag])
+                if diffs:
+                    ctx.property_failure({**case, "loads": [f"fresh loader, find_stubs_package={flag}"]},
+                                         {"differences_from_property": [list(map(str, x)) for x in diffs[:10]]})
+            for first in (True, False):
+                loader, history = griffe.GriffeLoader(search_paths=paths, allow_inspection=False), []
+                for flag in (first, not first, first):
+                    history.append(f"find_stubs_package={flag}")
+                    tree = load(loader, flag)
+                    if tree != fresh[flag]:
+                        ctx.property_failure({**case, "loads": list(history)},
+                                             {"differs_from_a_fresh_loader": [list(map(str, x)) for x in tree_diff(tree, fresh[flag])[:10]]})
+            ctx.observe("outcome:loader-reused", "ok")
+        except Exception as e:  # noqa: BLE001
+            ctx.observe("outcome:loader-reused", type(e).__name__)
+            ctx.property_failure(case, {"raised": type(e).__name__, "expected": "no exception"})
+    finally:
+        shutil.rmtree(d, ignore_errors=True)
+
+
+# ----------------------------------------------------------------------------------------------------------------------
 # public facade over a private sibling package: pkg/__init__.py = `from _pkg import *`, stubs for pkg.
 # Authorities: CPython importing pkg in a subprocess (runtime names, docstrings), CPython's ast on the .pyi (types).
 # Checked after load and again after resolve_aliases(implicit=True).
@@ -1419,7 +1562,7 @@ def compare_with_model(ctx, batch):
         for b in batch[:18]:
             XCHECK.extend([b[2]["merge"], b[2]["inpkg(py first)"], b[2]["stubs-package"]][:2 if len(XCHECK) > 24 else 3])
     keys = ["direct(py,pyi)", "direct(pyi,py)", "inpkg(py first)", "inpkg(pyi first)", "producer(py first)", "producer(pyi first)",
-            "toplevel", "stubs-package", "merge"]
+            "toplevel", "stubs-package", "single-file + stubs package", "merge"]
     flat, spans = [], []
     for b in batch:
         ks = keys + [k for k in NESTED_KEYS if k in b[2]]
@@ -1432,7 +1575,7 @@ def compare_with_model(ctx, batch):
         for k in [x for x in ks if x != "merge"]:
             m = norm_model(res[k])
             got = impl[k]
-            if k in ("toplevel", "stubs-package") and got[0] == "ok":
+            if k in ("toplevel", "stubs-package", "single-file + stubs package") and got[0] == "ok":
                 got = ["ok", got[1][1]]
             ctx.observe("model_outcome", m[0] if m[0] == "ok" else m[1])
             if m != got:
@@ -1821,6 +1964,8 @@ def explore(ctx):
             run_inherited_case(ctx, idx, py)
         if stream == "corpus" or idx % 3 == 2:
             run_interleaved_case(ctx, idx, py, pyi)
+        if idx % 4 == 1:
+            run_reuse_case(ctx, idx, py, pyi)
         idx += 1
         if r is not None:
             batch.append(r)
@@ -1839,6 +1984,11 @@ def explore(ctx):
     for k in range(ctx.budget(60, 800)):
         py, pyi = gen_pair(ctx.rng, anns=SAFE_ANNS)
         run_facade_case(ctx, len(FACADE_CORPUS) + k, py, pyi)
+    for k, (py, pyi) in enumerate(FACADE_CORPUS):
+        run_compiled_case(ctx, 2000 + k, py, pyi)
+    for k in range(ctx.budget(40, 500)):
+        py, pyi = gen_pair(ctx.rng, anns=SAFE_ANNS, aliases=False)
+        run_compiled_case(ctx, 2010 + k, py, pyi)
     if not ctx.quick:
         # extraction check: the same queries evaluated inside Coq (vm_compute) and by the extracted OCaml driver
         ctx.cross_check_extraction(XCHECK, n=24)
@@ -1878,6 +2028,24 @@ def replay(ctx, data):
                 print("MODEL DISAGREES:", t["name"], json.dumps(t["detail"], default=str)[:1500])
             for f in ctx.prop_failures:
                 print("PROPERTY FAILURE:", json.dumps(f["detail"], default=str)[:1500], "classified:", f["classified_as"])
+        finally:
+            shutil.rmtree(ctx.scratch, ignore_errors=True)
+        return 0
+    if case.get("stream") in ("inspected-runtime-module", "loader-reused"):
+        for k, v in case.items():
+            if k not in ("stream", "order", "loads"):
+                print(f"---- {k}\n{v}", end="")
+        print("order / loads:", case.get("order") or case.get("loads"))
+        ctx.scratch.mkdir(parents=True, exist_ok=True)
+        try:
+            if case["stream"] == "inspected-runtime-module":
+                run_compiled_case(ctx, 0, case["fast.pyc (compiled from)"], case["fast.pyi"], use_model=ctx.driver is not None)
+            else:
+                run_reuse_case(ctx, 1 if "pkgr/__init__.pyi" in case else 0, case["pkgr/__init__.py"], case["pkgr-stubs/__init__.pyi"])
+            for f in ctx.prop_failures:
+                print("PROPERTY FAILURE:", json.dumps(f["detail"], default=str)[:1500], "classified:", f["classified_as"])
+            for t in ctx.tie_failures:
+                print("MODEL DISAGREES:", t["name"], json.dumps(t["detail"], default=str)[:1500])
         finally:
             shutil.rmtree(ctx.scratch, ignore_errors=True)
         return 0
